@@ -50,6 +50,9 @@ class Engine:
         self.hooks = {}                 # name -> callable(engine, st, ...) extension points (cut points, call-outs)
         self.active_contract = None
         self.class_aliases = {}
+        self.ghost_types = {}
+        from . import heapmodel as _h
+        _h.install(self)
         from . import builtins as _b
         _b.install(self)
 
@@ -400,7 +403,7 @@ class Engine:
         for n in nodes:
             for x in ast.walk(n):
                 if isinstance(x, (ast.Call, ast.NamedExpr, ast.Await, ast.Yield, ast.YieldFrom)):
-                    if isinstance(x, ast.Call) and isinstance(x.func, ast.Name) and x.func.id in self.PURE_CALLS:
+                    if isinstance(x, ast.Call) and isinstance(x.func, ast.Name) and (x.func.id in self.PURE_CALLS or x.func.id in self.spec_funcs):
                         continue
                     return False
         return True
